@@ -591,7 +591,7 @@ func runC49(c *Ctx) {
 		c.Ob("list", "List#only-SIMPLE-keys", call.Pos(), okSimple, "only keys holding a simple value (files) are listed")
 		c.Ob("separator-aligned", "List#listed-key-is-under-the-directory", call.Pos(), okUnder, "a key is listed only after it was found under dir+\"/\" (both in the recursive and the non-recursive branch)")
 	}
-	c.Floor("List result append sites", napp, 2)
+	c.Floor("List result append sites", napp, 1)
 	// children deduplicated: every append that can run in the non-recursive mode emits a
 	// value that is put into a seen-set on the same path, and only when it was absent from it
 	okSeen := false
@@ -617,8 +617,24 @@ func runC49(c *Ctx) {
 				if in.key != elem || !ls.notInSeen(ls.FactsAt(in.at), in.m, in.key) {
 					continue
 				}
-				// the append is not reachable without passing the insertion
-				reached, _ := ls.Reach(nil, func(n ast.Node) bool { return containsNode(n, in.at) }, nil)
+				// in the non-recursive mode (the edges on which `recursive` is known true
+				// removed) the append is not reachable without passing the insertion
+				reached, _ := ls.Reach(nil, func(n ast.Node) bool { return containsNode(n, in.at) }, func(b *cfgBlock, si int) bool {
+					for _, at := range ls.edgeAtoms(b, si) {
+						if at.tag != nil {
+							continue
+						}
+						if v, known := evalBool3(at.e, func(e ast.Expr) (bool, bool) {
+							if ls.Prov(e) == "param#2" {
+								return false, true // not recursive
+							}
+							return false, false
+						}); known && v != at.truth {
+							return true
+						}
+					}
+					return false
+				})
 				bypass := false
 				for _, n := range reached {
 					if containsNode(n, call) {
